@@ -122,7 +122,8 @@ def render_diag(d):
     for s in spans:
         ls, le = s.get("line_start", 0), s.get("line_end", 0)
         lines.append((ls, le, bool(s.get("is_primary")), s.get("label") or ""))
-        if le - ls <= 3:
+        label = s.get("label") or ""
+        if le - ls <= 3 or ("failed this" in label and le - ls <= 60):
             for t in s.get("text", []):
                 tagged += re.findall(r"@(C\d+)", t.get("text", ""))
     prim = [l for l in lines if l[2]]
